@@ -9,7 +9,7 @@ Three exhaustive explorations of the REAL managers (tensorly.backend, tensorly.t
 * SX  sub-operation interleavings: real threads under a controlled scheduler (vmc/sched.py),
       all schedules up to a pre-emption bound, oracle = linearizability w.r.t. the same spec.
 * DX  "dynamically dispatched functions always run on that backend": in every state reached by a history of
-      selection events (length <= 2 quick / 3 thorough, two threads) EVERY name of the managers' dispatch tables
+      selection events (length <= 2 quick / 4 thorough, two threads) EVERY name of the managers' dispatch tables
       (functions and attributes) is reached through every access path (manager attribute, reference taken before
       any selection, tensorly top level) in every thread, with marker methods installed on the backend classes; each
       must land on the backend get_backend() names in that thread (get_backend() itself is judged by HX/SX/TX).
@@ -637,9 +637,9 @@ class C17(Check):
                     gs.append({"part": "SX", "manager": which, "family": kind, "program": pi, "names": [c[0] for c in prog],
                                "bound": bound, "opcode": opcode})
             # DX: every dispatched function / attribute, through every access path, in every state reached by a short history
-            maxlen = 2 if tier == "quick" else 3
+            maxlen = 2 if tier == "quick" else 4
             nh = len(dx_histories(names, 2, maxlen))
-            nchunks = 8 if tier == "quick" else 32
+            nchunks = 8 if tier == "quick" else 64
             for c in range(nchunks):
                 gs.append({"part": "DX", "manager": which, "maxlen": maxlen, "chunk": c, "nchunks": nchunks, "histories": len(range(c, nh, nchunks))})
         return gs
